@@ -103,6 +103,8 @@ SLURM_SHORT_STATES = {
     # The job was requeued in a special state. This state can be set by users, typically
     # in EpilogSlurmctld, if the job has terminated with a particular exit value.
     "SE": BackendStatus.SUBMITTED,
+    # Job is being signaled.
+    "SI": BackendStatus.RUNNING,
     # Job is staging out files.
     "SO": BackendStatus.SUBMITTED,
     # Job has an allocation, but execution has been stopped with SIGSTOP signal. CPUS
